@@ -776,6 +776,14 @@ class Interp:
                     return a / b
                 except ZeroDivisionError:
                     raise Undecided(f"symbolic division {a}/{b}")
+            if isinstance(op, ast.FloorDiv):
+                try:
+                    q = a / b
+                except ZeroDivisionError:
+                    raise Undecided(f"symbolic floor division {a}//{b}")
+                if q.is_const() and q.value().denominator != 1:
+                    return D(q.value().numerator // q.value().denominator)
+                return q
             if isinstance(op, ast.Pow):
                 if b.is_const() and b.value().denominator == 1 and b.value() >= 0:
                     return a ** int(b.value())
